@@ -42,6 +42,18 @@ type recDS struct {
 }
 
 func (d *recDS) Put(ctx context.Context, k datastore.Key, v []byte) error {
+	// an injected device error: the next `failPuts` Puts of the local-heads key fail (nothing is stored)
+	if k.String() == "/_localHeads" {
+		d.c.mu.Lock()
+		fail := d.c.failPuts > 0
+		if fail {
+			d.c.failPuts--
+		}
+		d.c.mu.Unlock()
+		if fail {
+			return fmt.Errorf("no space left on device (injected)")
+		}
+	}
 	err := d.Datastore.Put(ctx, k, v)
 	if err == nil && d.c.onPut != nil {
 		d.c.onPut(d.key, k.String(), v)
@@ -54,6 +66,8 @@ type memCache struct {
 	mu    sync.Mutex
 	m     map[string]*recDS
 	onPut func(db, key string, v []byte)
+	// failPuts: how many of the next Puts of `_localHeads` fail
+	failPuts int
 }
 
 func newMemCache() *memCache { return &memCache{m: map[string]*recDS{}} }
@@ -125,6 +139,7 @@ type World struct {
 	quiesceTimeout time.Duration
 	indexHeld      bool // an op is running under withIndexHeld
 	slotBase       map[interface{}]int
+	lenBefore      int // log length before the write in progress
 	heldFirst      map[string]chan struct{}
 	heldTaken      map[string]chan struct{}
 	reuseOpts      bool // address family: each peer passes one options value to every create/open
@@ -699,6 +714,11 @@ func (w *World) resetScenario(id string) {
 	w.reuseOpts = false
 	w.peerOpts = nil
 	w.unserved = nil
+	for _, pr := range w.peers {
+		pr.cache.mu.Lock()
+		pr.cache.failPuts = 0
+		pr.cache.mu.Unlock()
+	}
 	w.blocks.Reset()
 	w.net.ResetLinks()
 	w.mu.Lock()
